@@ -80,7 +80,7 @@ def run(ctx):
         c = ctx.find_calls(f, r"^alloc::vec::Vec::<T, A>::insert$")
         ctx.ob("C07.who.insert-at-zero", f.key, "Vec::insert index", len(c) == 1 and ctx.expr(f, c[0][1]["args"][1]) == "0_usize", "index %s" % [ctx.expr(f, t["args"][1]) for _, t in c])
     takers = sorted({b.key for b in nontest for blk, t in ctx.find_calls(b, r"^core::option::Option::<T>::take$|^core::mem::take$|^core::mem::replace$")
-                     if "alloc::vec::Vec<darling_core::error::Error>" in " ".join(mir.callee_info(t).get("targs", []))})
+                     if t["args"] and str(t["args"][0].get("p", {}).get("ty", "")).startswith("&mut core::option::Option<alloc::vec::Vec<darling_core::error::Error>")})
     ctx.ob("C07.who.take-only-in-into-inner", "Option<Vec<Error>>::take", "callers", takers == ["darling_core::error::Accumulator::into_inner"], "called from %s" % takers)
     common.unit_rejects_non_words(ctx, "C07.who.unit-overrides-only-from-word", core)
     f = ctx.fn("<darling_core::util::shape::ShapeSet as core::fmt::Display>::fmt")
